@@ -289,7 +289,16 @@ func doCheck(prop, tier string) int {
 			} else if sanReports[fn] > 0 {
 				// already recorded as a sanitizer report
 			} else {
-				incon = append(incon, fmt.Sprintf("child process of flavour %s ended without a result (log %s): %s", fn, oc.Log, firstLines(crashLine(t), 2)))
+				where := crashOrigin(oc.Log)
+				msg := fmt.Sprintf("child process of flavour %s ended without a result (log %s): %s", fn, oc.Log, firstLines(crashLine(t), 2))
+				switch {
+				case where == "harness":
+					internal = append(internal, msg)
+				case where == "library" && prop == "C20":
+					crashViol = append(crashViol, mon.Violation{Case: mon.Case{Prop: prop, Op: "process-crash:" + fn}, Kind: "fatal", Want: "no fatal error / unrecovered panic inside the library", Got: firstLines(crashLine(t), 2), Detail: "log: " + oc.Log + lastCases(oc.Log)})
+				default:
+					incon = append(incon, msg)
+				}
 			}
 			continue
 		}
@@ -307,6 +316,39 @@ func doCheck(prop, tier string) int {
 	}
 	if merged == nil {
 		merged = &mon.Result{Prop: prop, Tier: tier, Seed: seed, Cells: map[string]int64{}}
+	}
+	if prop == "C20" && merged.Extra != nil {
+		// every identifier exported by the tree under test must have been exercised
+		seen := map[string]bool{}
+		if l, ok := merged.Extra["api_exercised"].([]any); ok {
+			for _, x := range l {
+				if s, ok := x.(string); ok {
+					seen[s] = true
+				}
+			}
+		}
+		var missing []string
+		for _, f := range repoFuncs() {
+			name := f.Name
+			base := name
+			recv := ""
+			if i := strings.IndexByte(name, '.'); i >= 0 {
+				recv, base = name[:i], name[i+1:]
+			}
+			if base == "" || base[0] < 'A' || base[0] > 'Z' || (recv != "" && (recv[0] < 'A' || recv[0] > 'Z')) {
+				continue
+			}
+			if strings.HasPrefix(base, "Verif") {
+				continue
+			}
+			if !seen[name] {
+				missing = append(missing, name)
+			}
+		}
+		sort.Strings(missing)
+		if len(missing) > 0 && len(seen) > 0 {
+			incon = append(incon, "exported identifiers never exercised by the workload: "+strings.Join(missing, ", "))
+		}
 	}
 	merged.Violations = append(merged.Violations, crashViol...)
 	merged.ViolTotal += int64(len(crashViol))
@@ -469,6 +511,33 @@ func firstLines(s string, n int) string {
 		ls = ls[:n]
 	}
 	return strings.Join(ls, " | ")
+}
+
+// crashOrigin looks at the goroutine that crashed: "library" if its first
+// non-runtime frame is in the package under test, "harness" if it is in the
+// harness, "" if undecidable.
+func crashOrigin(logPath string) string {
+	b, err := os.ReadFile(logPath)
+	if err != nil {
+		return ""
+	}
+	lines := strings.Split(string(b), "\n")
+	for i, l := range lines {
+		if strings.HasPrefix(l, "panic:") || strings.HasPrefix(l, "fatal error:") {
+			for _, f := range lines[i+1:] {
+				switch {
+				case strings.HasPrefix(f, pkgPath):
+					return "library"
+				case strings.HasPrefix(f, "verifharness/"):
+					return "harness"
+				case strings.HasPrefix(f, "goroutine ") && strings.Contains(f, "[") && !strings.Contains(f, "running"):
+					return ""
+				}
+			}
+			return ""
+		}
+	}
+	return ""
 }
 
 func crashLine(t string) string {
